@@ -1,0 +1,81 @@
+//go:build verif
+
+// Contracts for the deductive verifier in /verif (govc). This file contains no code: with the
+// build tag off it is not part of the package, with it on it adds nothing to the build.
+package keeper
+
+//@ import sdk "github.com/cosmos/cosmos-sdk/types"
+//@ import big "math/big"
+//@ import core "github.com/ethereum/go-ethereum/core"
+//@ import corevm "github.com/ethereum/go-ethereum/core/vm"
+//@ import common "github.com/ethereum/go-ethereum/common"
+//@ import params "github.com/ethereum/go-ethereum/params"
+
+// ---------------------------------------------------------------------------------------------
+// state_transition_core.go — the copied go-ethereum state transition (C02, C04, C05, C06, C09)
+// ---------------------------------------------------------------------------------------------
+
+// Well-formed transition object as NewStateTransition builds it.
+//@ ghost func stOk(gpNonNil bool, msgNonNil bool, stateNonNil bool, evmNonNil bool) bool = gpNonNil && msgNonNil && stateNonNil && evmNonNil
+
+//@ func (st *StateTransition) gasUsed() uint64
+//@   requires st != nil && st.gas <= st.initialGas
+//@   modifies nothing
+//@   ensures[C05.gas_used] result == st.initialGas - st.gas
+//@   panics never
+
+//@ func (st *StateTransition) buyGas() (err error)
+//@   requires st != nil && st.gp != nil && st.msg != nil
+//@   requires st.gas == 0
+//@   modifies st.gas, st.initialGas, *st.gp
+//@   ensures[C05.buy_gas] err == nil ==> (st.initialGas == st.msg.Gas() && st.gas == st.msg.Gas() && *st.gp == old(*st.gp) - st.msg.Gas())
+//@   ensures[C05.buy_gas_fail] err != nil ==> (st.gas == old(st.gas) && st.initialGas == old(st.initialGas) && *st.gp == old(*st.gp))
+//@   ensures[C05.buy_gas_iff] (err == nil) == (old(*st.gp) >= st.msg.Gas())
+//@   panics never
+
+// refundGas: refund counter capped by gasUsed/quotient (C05); the sender is credited gas*price iff the fee was
+// paid in the ante handler, and that credit is created by StateDB.AddBalance (exact effect, C04).
+//@ func (st *StateTransition) refundGas(refundQuotient uint64)
+//@   requires st != nil && st.gp != nil && st.msg != nil && st.state != nil && st.gasPrice != nil
+//@   requires refundQuotient > 0 && st.gas <= st.initialGas && *st.gp + st.initialGas < pow2(64)
+//@   requires[C05.refund_quotient_rule] st.evm != nil && st.evm.Context.BlockNumber != nil && refundQuotient == (londonActive(st.evm.ChainConfig(), bigval[st.evm.Context.BlockNumber]) ? 5 : 2)
+//@   modifies st.gas, *st.gp, sdbBal[payload(st.state)], sdbSupply[payload(st.state)], sdbOther[payload(st.state)]
+//@   ensures[C05.refund_cap] st.gas == old(st.gas) + min((st.initialGas - old(st.gas)) / refundQuotient, sdbRefund[payload(st.state)])
+//@   ensures[C05.gas_le_initial] st.gas <= st.initialGas
+//@   ensures[C05.pool_returned] *st.gp == old(*st.gp) + st.gas
+//@   ensures[C05.sender_credit] sdbBal[payload(st.state)] == old(sdbBal[payload(st.state)])[st.msg.From() := old(sdbBal[payload(st.state)][st.msg.From()]) + (st.SenderPaidTheFee ? st.gas * bigval[st.gasPrice] : 0)]
+//@   ensures[C04.refund_effect] sdbSupply[payload(st.state)] == old(sdbSupply[payload(st.state)]) + (st.SenderPaidTheFee ? st.gas * bigval[st.gasPrice] : 0)
+//@   panics[C05.refund_never_panics] never
+
+//@ import evmtypes "github.com/EscanBE/evermint/v12/x/evm/types"
+
+// preCheck: nonce / EOA / fee-cap admission rules of go-ethereum, then buyGas (no balance debit: the fee was
+// taken by the ante handler).
+//@ func (st *StateTransition) preCheck() (err error)
+//@   requires st != nil && st.gp != nil && st.msg != nil && st.state != nil && st.evm != nil
+//@   requires st.gasFeeCap != nil && st.gasTipCap != nil && st.evm.Context.BlockNumber != nil
+//@   requires londonActive(st.evm.ChainConfig(), bigval[st.evm.Context.BlockNumber]) ==> st.evm.Context.BaseFee != nil
+//@   requires st.gas == 0
+//@   modifies st.gas, st.initialGas, *st.gp
+//@   ensures[C06.nonce_eq] (err == nil && !st.msg.IsFake()) ==> (sdbNonce[payload(st.state)][st.msg.From()] == st.msg.Nonce() && st.msg.Nonce() + 1 < pow2(64))
+//@   ensures[C06.sender_is_eoa] (err == nil && !st.msg.IsFake()) ==> (sdbCodeHash[payload(st.state)][st.msg.From()] == common.BytesToHash(evmtypes.EmptyCodeHash) || sdbCodeHash[payload(st.state)][st.msg.From()] == zero(type(common.Hash)))
+//@   ensures[C09.fee_cap_ge_base_fee] (err == nil && londonActive(st.evm.ChainConfig(), bigval[st.evm.Context.BlockNumber]) && !(st.evm.Config.NoBaseFee && bigval[st.gasFeeCap] == 0 && bigval[st.gasTipCap] == 0)) ==> (bigval[st.gasFeeCap] >= bigval[st.evm.Context.BaseFee] && bigval[st.gasFeeCap] >= bigval[st.gasTipCap] && bigval[st.gasFeeCap] < pow2(256))
+//@   ensures[C05.buy_gas] err == nil ==> (st.initialGas == st.msg.Gas() && st.gas == st.msg.Gas() && *st.gp == old(*st.gp) - st.msg.Gas())
+//@   ensures[C05.precheck_fail] err != nil ==> (st.gas == old(st.gas) && st.initialGas == old(st.initialGas) && *st.gp == old(*st.gp))
+//@   panics never
+
+// TransitionDb (normal return with err == nil means the message was executed, possibly with a VM error).
+//@ func (st *StateTransition) TransitionDb() (res *core.ExecutionResult, err error)
+//@   requires st != nil && st.gp != nil && st.msg != nil && st.state != nil && st.evm != nil
+//@   requires st.gasPrice != nil && st.gasFeeCap != nil && st.gasTipCap != nil && st.evm.Context.BlockNumber != nil && st.msg.Value() != nil
+//@   requires londonActive(st.evm.ChainConfig(), bigval[st.evm.Context.BlockNumber]) ==> st.evm.Context.BaseFee != nil
+//@   requires st.gas == 0 && st.value == st.msg.Value() && st.state == st.evm.StateDB
+//@   requires st.evm.Config.Debug ==> st.evm.Config.Tracer != nil
+//@   modifies st.gas, st.initialGas, *st.gp, sdbNonce[payload(st.state)], sdbBal[payload(st.state)], sdbSupply[payload(st.state)], sdbRefund[payload(st.state)], sdbCodeHash[payload(st.state)], sdbOther[payload(st.state)], elems(type(common.Address))
+//@   ensures[C05.used_gas] err == nil ==> (res != nil && st.initialGas == st.msg.Gas() && st.gas <= st.initialGas && res.UsedGas == st.initialGas - st.gas)
+//@   ensures[C05.pool] err == nil ==> *st.gp == old(*st.gp) - res.UsedGas
+//@   ensures[C06.nonce_plus_one] (err == nil && !st.msg.IsFake()) ==> sdbNonce[payload(st.state)][st.msg.From()] == old(sdbNonce[payload(st.state)][st.msg.From()]) + 1
+//@   ensures[C06.nonce_matched] (err == nil && !st.msg.IsFake()) ==> old(sdbNonce[payload(st.state)][st.msg.From()]) == st.msg.Nonce()
+//@   ensures[C04.supply_delta] err == nil ==> sdbSupply[payload(st.state)] <= old(sdbSupply[payload(st.state)]) + (st.SenderPaidTheFee ? st.gas * bigval[st.gasPrice] : 0)
+//@   ensures[C05.core_error_no_effect] err != nil ==> (sdbNonce[payload(st.state)] == old(sdbNonce[payload(st.state)]) && sdbBal[payload(st.state)] == old(sdbBal[payload(st.state)]) && sdbSupply[payload(st.state)] == old(sdbSupply[payload(st.state)]) && sdbCodeHash[payload(st.state)] == old(sdbCodeHash[payload(st.state)]))
+//@   panics never
